@@ -177,6 +177,169 @@ Proof.
   - reflexivity.
 Qed.
 
+Lemma read_string_fr_hdr fv sv e l t c1 cs bv k sx m o : is_ptr fv -> is_ptr sv -> Forall byte sx ->
+  forall st, read_int32 false sx = Err st ->
+  exists e' l' t' c1' s', bsE prog_env (fbody prog_sbdf_read_string) (rs fv sv e l t c1 cs bv k sx m o) (OReturn (VInt st) (rs fv sv e' l' t' c1' cs bv k s' m o)).
+Proof.
+  intros Hf Hp Hs st Hr. cbn [fbody prog_sbdf_read_string]. unfold rs.
+  assert (Est : st = SBDF_ERROR_IO).
+  { rewrite read_int32_model in Hr. destruct sx as [|b0 [|b1 [|b2 [|b3 r]]]]; congruence. }
+  destruct fv as [| fr fo | | | | |]; try contradiction. destruct sv as [| pr po | | | | |]; try contradiction.
+  pose proof (read_int32_bs2 (VPtr fr fo) cell_token VUndef bv k sx m o I I Hs) as RI. rewrite Hr in RI. destruct RI as (c' & s' & RI).
+  do 5 eexists.
+  - eapply bsE_seq; [eapply bsE_decl0; evr; reflexivity|]. eapply bsE_seq; [eapply bsE_decl0; evr; reflexivity|]. eapply bsE_seq; [eapply bsE_decl0; evr; reflexivity|].
+    eapply bsE_seq; [eapply bsE_if; [evr; reflexivity|reflexivity|apply bsE_skip]|].
+    eapply bsE_seq_ret. eapply bsE_seq.
+    + eapply bsE_call; [reflexivity|evcr; reflexivity|reflexivity|exact RI|unfold ri2; evcr; reflexivity].
+    + subst st. eapply bsE_if; [evr; reflexivity|reflexivity|]. eapply bsE_return. evr. reflexivity.
+Qed.
+
+Lemma read_string_fr_max fv sv e l t c1 cs bv k sx m o s' : is_ptr fv -> is_ptr sv -> Forall byte sx ->
+  read_int32 false sx = Ok (int_max, s') ->
+  exists e' l' t' c1', bsE prog_env (fbody prog_sbdf_read_string) (rs fv sv e l t c1 cs bv k sx m o) (OReturn (VInt SBDF_ERROR_OUT_OF_MEMORY) (rs fv sv e' l' t' c1' cs bv k s' m o)).
+Proof.
+  intros Hf Hp Hs Hr. cbn [fbody prog_sbdf_read_string]. unfold rs.
+  destruct fv as [| fr fo | | | | |]; try contradiction. destruct sv as [| pr po | | | | |]; try contradiction.
+  pose proof (read_int32_bs2 (VPtr fr fo) cell_token VUndef bv k sx m o I I Hs) as RI. rewrite Hr in RI.
+  pose proof (str_create_len_refused s' hc VNull int_max VUndef bv k m o (or_intror eq_refl)) as CL.
+  do 4 eexists.
+  - pre RI. eapply bsE_seq; [eapply bsE_if; [evr; chk7; evr; reflexivity|reflexivity|apply bsE_skip]|].
+    eapply bsE_seq_ret. eapply bsE_seq; [eapply bsE_call; [reflexivity|evcr; reflexivity|reflexivity|exact CL|unfold cl; evcr; reflexivity]|].
+    eapply bsE_if; [evr; reflexivity|reflexivity|]. eapply bsE_return. evr. chk7. reflexivity.
+Qed.
+
+
+Lemma read_string_fr_body fv sv e l t c1 cs bv k sx m o n s' : is_ptr fv -> is_ptr sv -> Forall byte sx ->
+  read_int32 false sx = Ok (n, s') -> n + 1 <= int_max ->
+  let got := firstn (Z.to_nat n) s' in
+  exists e' l' t' c1', bsE prog_env (fbody prog_sbdf_read_string) (rs fv sv e l t c1 cs bv k sx m o)
+    (OReturn (VInt (if n <? 0 then SBDF_ERROR_INVALID_SIZE else if k =? 0 then SBDF_ERROR_OUT_OF_MEMORY else if rd_ok n s' then SBDF_OK else SBDF_ERROR_IO))
+       (rs fv sv e' l' t' c1'
+           (if n <? 0 then cs else if k =? 0 then cs else if rd_ok n s' then VPtr RIn (zlen m + 4) else cs) bv
+           (if n <? 0 then k else if k =? 0 then -1 else next_fail k)
+           (if n <? 0 then s' else if k =? 0 then s' else if rd_ok n s' then skipn (Z.to_nat n) s' else [])
+           (if n <? 0 then m else if k =? 0 then m else if rd_ok n s' then str_mem m got [] else upd_range (Z.to_nat (zlen m + 4)) got (str_mem m (repeat junk (Z.to_nat n)) [])) o)).
+Proof.
+  intros Hf Hp Hs Hr Hmax got0. subst got0. cbn [fbody prog_sbdf_read_string]. unfold rs. unfold int_max in Hmax.
+  destruct fv as [| fr fo | | | | |]; try contradiction. destruct sv as [| pr po | | | | |]; try contradiction.
+  pose proof (read_int32_bs2 (VPtr fr fo) cell_token VUndef bv k sx m o I I Hs) as RI. rewrite Hr in RI.
+  assert (Hn : int_min <= n <= int_max).
+  { rewrite read_int32_model in Hr. destruct sx as [|b0 [|b1 [|b2 [|b3 r]]]]; try discriminate. injection Hr as <- _.
+    apply ImpBase.de32_range; [|reflexivity].
+    inversion Hs as [|? ? G0 Q0]; inversion Q0 as [|? ? G1 Q1]; inversion Q1 as [|? ? G2 Q2]; inversion Q2 as [|? ? G3 Q3]. repeat (constructor; [assumption|]). constructor. }
+  unfold int_min, int_max in Hn.
+  destruct (n <? 0) eqn:En.
+  - do 4 eexists. pre RI. eapply bsE_seq_ret. eapply bsE_if; [evr; chk7; evr; rewrite En; reflexivity|reflexivity|]. eapply bsE_return. evr. chk7. reflexivity.
+  - assert (N0 : 0 <= n) by lia.
+    pose proof (str_create_len_bs s' hc VNull n VUndef bv k m o (repeat junk (Z.to_nat n)) N0 ltac:(unfold int_max; lia) eq_refl) as CL.
+    pose proof (zlen_nonneg m) as Pm. pose proof (zlen_nonneg s') as Ps.
+    destruct (k =? 0) eqn:Ek.
+    + do 4 eexists.
+        pre RI. eapply bsE_seq; [eapply bsE_if; [evr; chk7; evr; rewrite En; reflexivity|reflexivity|apply bsE_skip]|].
+        eapply bsE_seq_ret. eapply bsE_seq; [eapply bsE_call; [reflexivity|evcr; reflexivity|reflexivity|exact CL|unfold cl; evcr; reflexivity]|].
+        eapply bsE_if; [evr; reflexivity|reflexivity|]. eapply bsE_return. evr. chk7. reflexivity.
+    + set (mem1 := str_mem m (repeat junk (Z.to_nat n)) []) in *.
+      assert (L1 : zlen mem1 = zlen m + 4 + n + 1).
+      { unfold mem1, str_mem. rewrite !zlen_app, zlen_repeat by lia. change (zlen (le32 _)) with 4. change (zlen [0]) with 1. change (zlen []) with 0. lia. }
+      set (got := firstn (Z.to_nat n) s').
+      destruct (rd_ok n s') eqn:Eo; unfold rd_ok in Eo.
+      * assert (Lg : Z.of_nat (Datatypes.length got) = n) by (unfold got; rewrite firstn_length; unfold zlen in *; lia).
+        assert (MEM : upd_range (Z.to_nat (zlen m + 4)) got mem1 = str_mem m got []).
+        { unfold mem1, str_mem. rewrite zlen_repeat by lia. replace (zlen got) with n by (unfold zlen; lia).
+          replace (Z.to_nat (zlen m + 4)) with (List.length (m ++ le32 (n + 1))) by (rewrite app_length; unfold zlen; cbn [List.length le32]; lia).
+          rewrite !(app_assoc m (le32 (n + 1))). apply upd_range_at. rewrite repeat_length. lia. }
+        assert (MEM2 : upd_nth (Z.to_nat (zlen m + 4 + n)) 0 (str_mem m got []) = str_mem m got []).
+        { unfold str_mem. replace (Z.to_nat (zlen m + 4 + n)) with (List.length (m ++ le32 (zlen got + 1) ++ got)) by (rewrite !app_length; unfold zlen in *; cbn [List.length le32]; lia).
+          replace (m ++ le32 (zlen got + 1) ++ got ++ [0] ++ []) with ((m ++ le32 (zlen got + 1) ++ got) ++ 0 :: []) by (rewrite <- !app_assoc; reflexivity).
+          apply upd_nth_at. }
+        do 4 eexists.
+        ++ pre RI. eapply bsE_seq; [eapply bsE_if; [evr; chk7; evr; rewrite En; reflexivity|reflexivity|apply bsE_skip]|].
+           eapply bsE_seq; [eapply bsE_seq; [eapply bsE_call; [reflexivity|evcr; reflexivity|reflexivity|exact CL|unfold cl; evcr; reflexivity]|
+                                             eapply bsE_if; [evr; reflexivity|reflexivity|apply bsE_skip]]|].
+           eapply bsE_seq. { eapply bsE_if. { evr. replace (0 <=? n) with true by lia. evr. change (Z.of_nat (Datatypes.length mem1)) with (zlen mem1). rewrite L1.
+             replace ((0 <=? n) && (0 <=? zlen m + 4) && (zlen m + 4 + n <=? zlen m + 4 + n + 1)) with true by lia. evr. fold got. replace (0 <=? n) with true by lia. evr. reflexivity. }
+             { cbn [truth]. rewrite Lg, Z.eqb_refl. reflexivity. } apply bsE_skip. }
+           rewrite MEM.
+           assert (L2 : zlen (str_mem m got []) = zlen m + 4 + n + 1).
+           { unfold str_mem. rewrite !zlen_app. change (zlen (le32 _)) with 4. change (zlen [0]) with 1. change (zlen []) with 0. unfold zlen at 2. lia. }
+           eapply bsE_seq. { eapply bsE_expr. evr. unfold ptr_add. cbn [inb]. rewrite zlen_length, L2.
+             replace ((0 <=? zlen m + 4 + n) && (zlen m + 4 + n <=? zlen m + 4 + n + 1)) with true by lia. evr. chk7. evr.
+             cbn [store inb vars outb]. rewrite zlen_length, L2. replace ((0 <=? zlen m + 4 + n) && (zlen m + 4 + n <? zlen m + 4 + n + 1)) with true by lia.
+             change (((0 + 128) mod 256 - 128) mod 256) with 0. rewrite MEM2. reflexivity. }
+           eapply bsE_seq. { eapply bsE_expr. evr. reflexivity. }
+           eapply bsE_return. evr. chk7. reflexivity.
+      * assert (Lg : Z.of_nat (Datatypes.length got) = zlen s') by (unfold got; rewrite firstn_length; unfold zlen in *; lia).
+        assert (Sk : skipn (Z.to_nat n) s' = []) by (apply skipn_all2; unfold zlen in *; lia).
+        set (mem2 := upd_range (Z.to_nat (zlen m + 4)) got mem1).
+        assert (L2 : zlen mem2 = zlen m + 4 + n + 1) by (unfold mem2, zlen; rewrite upd_range_length; exact L1).
+        pose proof (str_destroy_bs [] hc (zlen m + 4) bv (next_fail k) mem2 o ltac:(lia)) as DS.
+        do 4 eexists.
+        ++ pre RI. eapply bsE_seq; [eapply bsE_if; [evr; chk7; evr; rewrite En; reflexivity|reflexivity|apply bsE_skip]|].
+           eapply bsE_seq; [eapply bsE_seq; [eapply bsE_call; [reflexivity|evcr; reflexivity|reflexivity|exact CL|unfold cl; evcr; reflexivity]|
+                                             eapply bsE_if; [evr; reflexivity|reflexivity|apply bsE_skip]]|].
+           eapply bsE_seq_ret. eapply bsE_if.
+           { evr. replace (0 <=? n) with true by lia. evr. change (Z.of_nat (Datatypes.length mem1)) with (zlen mem1). rewrite L1.
+             replace ((0 <=? n) && (0 <=? zlen m + 4) && (zlen m + 4 + n <=? zlen m + 4 + n + 1)) with true by lia. evr. fold got. fold mem2. rewrite Sk.
+             replace (0 <=? n) with true by lia. evr. reflexivity. }
+           { cbn [truth]. rewrite Lg. replace (zlen s' =? n) with false by lia. reflexivity. }
+           eapply bsE_seq; [eapply bsE_call_void; [reflexivity|evcr; reflexivity|reflexivity|exact DS|unfold ds; evcr; reflexivity]|].
+           eapply bsE_return. evr. chk7. reflexivity.
+Qed.
+
+
+(* sbdf_read_string as a callee: the frame it leaves, for every stream, memory and allocation schedule *)
+Lemma read_string_call fv sv cs bv k sx m o : is_ptr fv -> is_ptr sv -> Forall byte sx ->
+  exists st e' l' t' c1' cs' k' s' m',
+    bsE prog_env (fbody prog_sbdf_read_string) (rs fv sv VUndef VUndef VUndef VUndef cs bv k sx m o) (OReturn (VInt st) (rs fv sv e' l' t' c1' cs' bv k' s' m' o)) /\
+    (exists x, m' = m ++ x) /\
+    ((st = SBDF_OK /\ cs' = VPtr RIn (zlen m + 4) /\ zlen m + 4 <= zlen m' /\ Forall byte s') \/ (st < 0 /\ cs' = cs)) /\
+    (st = SBDF_OK -> match read_string false None sx with Ok (_, rest) => s' = rest | Err _ => False end) /\
+    (k < 0 -> match read_string false None sx with Ok _ => st = SBDF_OK | Err e => st = e end).
+Proof.
+  intros Hf Hp Hs. unfold read_string, rd_bind.
+  destruct (read_int32 false sx) as [[n s1]|e] eqn:Hr.
+  2: { destruct (read_string_fr_hdr fv sv VUndef VUndef VUndef VUndef cs bv k sx m o Hf Hp Hs e Hr) as (e' & l' & t' & c1' & s' & B).
+       assert (Est : e = SBDF_ERROR_IO) by (rewrite read_int32_model in Hr; destruct sx as [|b0 [|b1 [|b2 [|b3 r]]]]; congruence). subst e.
+       exists SBDF_ERROR_IO, e', l', t', c1', cs, k, s', m. split; [exact B|]. split; [exists []; now rewrite app_nil_r|].
+       split; [right; split; reflexivity|]. split; [intros X; cbv in X; discriminate X|intros _; reflexivity]. }
+  assert (Hn : int_min <= n <= int_max).
+  { rewrite read_int32_model in Hr. destruct sx as [|b0 [|b1 [|b2 [|b3 r]]]]; try discriminate. injection Hr as <- _.
+    apply ImpBase.de32_range; [|reflexivity].
+    inversion Hs as [|? ? G0 Q0]; inversion Q0 as [|? ? G1 Q1]; inversion Q1 as [|? ? G2 Q2]; inversion Q2 as [|? ? G3 Q3]. repeat (constructor; [assumption|]). constructor. }
+  assert (Hs1 : Forall byte s1).
+  { rewrite read_int32_model in Hr. destruct sx as [|b0 [|b1 [|b2 [|b3 r]]]]; try discriminate. injection Hr as _ <-.
+    inversion Hs as [|? ? G0 Q0]; inversion Q0 as [|? ? G1 Q1]; inversion Q1 as [|? ? G2 Q2]; inversion Q2 as [|? ? G3 Q3]. exact Q3. }
+  destruct (Z.eq_dec n int_max) as [->|Hne].
+  { destruct (read_string_fr_max fv sv VUndef VUndef VUndef VUndef cs bv k sx m o s1 Hf Hp Hs Hr) as (e' & l' & t' & c1' & B).
+    exists SBDF_ERROR_OUT_OF_MEMORY, e', l', t', c1', cs, k, s1, m. split; [exact B|]. split; [exists []; now rewrite app_nil_r|].
+    split; [right; split; reflexivity|]. split; [intros X; cbv in X; discriminate X|intros _].
+    change (int_max <? 0) with false. change (int_max =? INT_MAX) with true. reflexivity. }
+  assert (Hmax : n + 1 <= int_max) by lia.
+  destruct (read_string_fr_body fv sv VUndef VUndef VUndef VUndef cs bv k sx m o n s1 Hf Hp Hs Hr Hmax) as (e' & l' & t' & c1' & B).
+  unfold int_min, int_max in Hn, Hmax, Hne. pose proof (zlen_nonneg s1) as Ps. pose proof (zlen_nonneg m) as Pm.
+  do 9 eexists. split; [exact B|].
+  destruct (n <? 0) eqn:En.
+  { split; [exists []; now rewrite app_nil_r|]. split; [right; split; reflexivity|]. split; [intros X; cbv in X; discriminate X|intros _; reflexivity]. }
+  replace (n =? INT_MAX) with false by (unfold INT_MAX; lia). unfold ralloc, alloc_ok.
+  destruct (k =? 0) eqn:Ek.
+  { split; [exists []; now rewrite app_nil_r|]. split; [right; split; reflexivity|]. split; [intros X; cbv in X; discriminate X|intros X; lia]. }
+  unfold rd_ok. destruct (n <=? zlen s1) eqn:Eo.
+  - assert (Hsplit : s1 = firstn (Z.to_nat n) s1 ++ skipn (Z.to_nat n) s1) by (symmetry; apply firstn_skipn).
+    assert (Hl : zlen (firstn (Z.to_nat n) s1) = n) by (unfold zlen in *; rewrite firstn_length; lia).
+    assert (FR : fread_bytes n s1 = Ok (firstn (Z.to_nat n) s1, skipn (Z.to_nat n) s1)).
+    { pose proof (fread_bytes_exact (firstn (Z.to_nat n) s1) (skipn (Z.to_nat n) s1)) as X. rewrite Hl, <- Hsplit in X. exact X. }
+    rewrite FR.
+    split; [unfold str_mem; eexists; reflexivity|].
+    split; [left; split; [reflexivity|split; [reflexivity|split; [unfold str_mem; rewrite !zlen_app; change (zlen (le32 _)) with 4; pose proof (zlen_nonneg (firstn (Z.to_nat n) s1)); change (zlen [0]) with 1; change (zlen []) with 0; lia|]]]|].
+    { rewrite Hsplit in Hs1. apply Forall_app in Hs1. exact (proj2 Hs1). }
+    split; [intros _; reflexivity|intros _; reflexivity].
+  - assert (FR : exists e2, fread_bytes n s1 = Err e2 /\ e2 = SBDF_ERROR_IO).
+    { unfold fread_bytes. replace (n <? 0) with false by lia. rewrite take_z_short by lia. eexists. split; reflexivity. }
+    destruct FR as (e2 & FR & ->). rewrite FR.
+    split; [unfold str_mem; replace (Z.to_nat (zlen m + 4)) with (List.length m + 4)%nat by (unfold zlen; lia); rewrite upd_range_app_r; eexists; reflexivity|].
+    split; [right; split; reflexivity|]. split; [intros X; cbv in X; discriminate X|intros _; reflexivity].
+Qed.
+
 Theorem read_string_source sx m k : Forall byte sx ->
   exists f0, forall f, (f0 <= f)%nat -> exists fin st,
     callC prog_env f prog_sbdf_read_string [tok; tok] m k sx hc = OReturn (VInt st) fin /\
